@@ -100,6 +100,7 @@ class BaseColumnEnsembleClassifier(BaseClassifier, _HeterogenousMetaEstimator):
         """
 
         if self.is_fitted:
+            # the fitted estimators already include the fitted remainder
             estimators = self.estimators_
         else:
             # interleave the validated column specifiers
@@ -108,9 +109,9 @@ class BaseColumnEnsembleClassifier(BaseClassifier, _HeterogenousMetaEstimator):
                 for (name, estimator, _), column in zip(self.estimators, self._columns)
             ]
 
-        # add transformer tuple for remainder
-        if self._remainder[2] is not None:
-            estimators = chain(estimators, [self._remainder])
+            # add transformer tuple for remainder
+            if self._remainder[2] is not None:
+                estimators = chain(estimators, [self._remainder])
 
         for name, estimator, column in estimators:
             if replace_strings:
